@@ -9,6 +9,7 @@ import (
 	"math"
 	"net"
 	"reflect"
+	"runtime"
 	"sort"
 	"strings"
 	"sync"
@@ -367,4 +368,73 @@ func docDiff(a, b *result.Results) string {
 func TestC16(t *testing.T) {
 	rec := NewRecorder("C16", "C16", "rapid: result documents (0..6 runs of 1..12 hops with nil / 4-byte / 16-byte / IPv4-mapped addresses; 0..50 RTT samples: zero, Duration-derived up to 9.2e12 ms, all-zero, identical, huge; a permutation of the sample order); oracle after Normalize(): reachable <=> address, hop-count relations and an independent recomputation, sent/received/loss, min<=avg<=max and 0<=jitter<=max-min (relative tolerance 1e-9 for floating-point summation), permutation invariance, identifiers URL-safe base64 of 16 bytes and never repeated across the whole run, JSON key set == published list, Unmarshal(Marshal(d)) == d; non-trivial = >= 2 runs of different length and >= 2 positive samples")
 	RunProp(t, rec, genDoc, checkC16)
+}
+
+// TestC16ConcurrentIDs: identifiers stay well-formed and pairwise distinct when documents are finished by
+// several goroutines at once (every request of the HTTP server normalises its own document).
+func TestC16ConcurrentIDs(t *testing.T) {
+	rec := NewRecorder("C16", "C16ConcurrentIDs", "enumeration: 8 goroutines finishing 20 000 three-run documents each at the same time (640 000 identifiers per round, 3 rounds with GOMAXPROCS 16, 2, 1); oracle: no panic, every identifier is URL-safe base64 of 16 bytes, no identifier appears twice; non-trivial always")
+	rec.Exhaustive = true
+	type round struct {
+		Procs int `json:"gomaxprocs"`
+	}
+	RunCases(t, rec, func(yield func(*round) bool) {
+		for _, p := range []int{16, 2, 1} {
+			if !yield(&round{Procs: p}) {
+				return
+			}
+		}
+	}, func(t *testing.T, c *round, rec *Recorder) []Diff {
+		old := runtime.GOMAXPROCS(c.Procs)
+		defer runtime.GOMAXPROCS(old)
+		const workers = 8
+		docs := envInt("VERIF_C16_DOCS", 20000)
+		ids := make([][]string, workers)
+		panics := make([]string, workers)
+		var wg sync.WaitGroup
+		for w := 0; w < workers; w++ {
+			wg.Add(1)
+			go func(w int) {
+				defer wg.Done()
+				defer func() {
+					if r := recover(); r != nil {
+						panics[w] = fmt.Sprint(r)
+					}
+				}()
+				for i := 0; i < docs; i++ {
+					d := &result.Results{}
+					d.Traceroute.Runs = make([]result.TracerouteRun, 3)
+					d.Normalize()
+					ids[w] = append(ids[w], d.TestRunID, d.Traceroute.Runs[0].RunID, d.Traceroute.Runs[1].RunID, d.Traceroute.Runs[2].RunID)
+				}
+			}(w)
+		}
+		wg.Wait()
+		var ds []Diff
+		seen := map[string]bool{}
+		dups, bad := 0, 0
+		for w := range ids {
+			if panics[w] != "" {
+				ds = append(ds, Diff{"C16", "panic", fmt.Sprintf("finishing documents concurrently panicked: %s", panics[w])})
+			}
+			for _, id := range ids[w] {
+				raw, err := base64.RawURLEncoding.DecodeString(id)
+				if err != nil || len(raw) != 16 {
+					bad++
+				}
+				if seen[id] {
+					dups++
+				}
+				seen[id] = true
+			}
+		}
+		if dups > 0 {
+			ds = append(ds, Diff{"C16", "id-reused", fmt.Sprintf("%d identifiers were handed out more than once among %d generated by %d goroutines", dups, len(seen)+dups, workers)})
+		}
+		if bad > 0 {
+			ds = append(ds, Diff{"C16", "id-format", fmt.Sprintf("%d identifiers are not URL-safe base64 of 16 bytes", bad)})
+		}
+		rec.CaseEnumerated(true, map[string]any{"gomaxprocs": c.Procs, "identifiers": len(seen)})
+		return ds
+	})
 }
